@@ -534,3 +534,32 @@ def shrink(ctx, case):
                 cc["why"] = v[1]; best = cc; ops = x; changed = True
                 break
     return best
+
+
+# ---- T1Y: the numerals of this property's models are tied to the current tree.  extract/consts2*.c + a source scan
+# rewrite lean/CoapVerif/Generated/Consts2.lean on every check; Props/C01Consts.lean proves `<model numeral / model
+# function> = Generated.C2.<name>` (design/T1.md).  A changed macro / enum value / case label / literal breaks one of
+# these named obligations.
+LEAN_MODULES = list(LEAN_MODULES) + ["CoapVerif.Props.C01Consts"]
+REQUIRED_THEOREMS = list(REQUIRED_THEOREMS) + [
+    "pduInit_bound_matches_code",
+    "repeatableConsts_match_code",
+    "optEncodeSize_matches_code",
+    "optSetHeader_matches_code",
+    "tokBias_matches_code",
+    "tokHdr_matches_code",
+    "encodeHeader_udp_matches_code",
+    "encodeHeader_tcp_numerals_match_code",
+    "build_numerals_match_code",
+    "wsLenField_matches_code",
+    "wsHeader_matches_code",
+    "wsCloseFrame_matches_code",
+    "wsCloseDefaultReason_matches_code",
+]
+TRUSTED_BASE = list(TRUSTED_BASE) + ["T1 extractors extract/consts2.c, consts2_net.c, consts2_opt.c, consts2_res.c and the source scan vlib/tables.py scan_consts2 / scan_oscore_protect (Generated/Consts2.lean)"]
+_t1x_prev_extract = globals().get("extract")
+
+
+def extract(ctx):
+    from vlib import tables
+    return (_t1x_prev_extract(ctx) if _t1x_prev_extract else []) + tables.extract_consts2()
